@@ -22,7 +22,7 @@ ASSUMPTIONS = ['firmware layouts: crtp_commander_rpyt / crtp_commander_generic (
                'full-state rates are sent as value*1000 fixed point (unit as passed by the caller)']
 REQUIRED = ['mon.rpyt', 'mon.generic_setpoints', 'mon.full_state', 'mon.high_level', 'mon.localization', 'mon.platform',
             'mon.lpp', 'mon.refused', 'mon.headers', 'mon.legacy_versions', 'mon.xmode', 'mon.full_state_orientation_judged',
-            'mon.full_state_negated_orientation']
+            'mon.full_state_negated_orientation', 'mon.queued_packets_rechecked']
 
 VERSIONS = (-1, 3, 4, 7, 8, 9, 10)
 SPECIAL = [0.0, -0.0, float('inf'), float('-inf'), float('nan'), 1e-45, 1e-39, 3.4028234663852886e38, 1e38, 1e39, -1e39,
@@ -54,9 +54,13 @@ class Link:
 
     def __init__(self):
         self.sent = []
+        self.queued = []
 
     def send_packet(self, pk):
         self.sent.append((pk.header, bytes(pk.data), pk.port, pk.channel))
+        # like the radio driver this link only queues the packet OBJECT; the bytes go out later
+        self.queued.append((pk, pk.header, bytes(pk.data)))
+        del self.queued[:-4]
         return True
 
     def receive_packet(self, wait=0):
@@ -517,6 +521,14 @@ def run(desc, ctx):
             continue
         if not expect(data):
             ctx.violate('cmd:%s:packet-does-not-decode-to-arguments' % cmd, dict(info, data=data.hex()), replay=rp)
+        # packets handed to the link by earlier commands and still queued there must not have changed
+        for (pko, h0, d0) in cf.link.queued[:-1]:
+            ctx.count('mon.queued_packets_rechecked')
+            if pko.header != h0 or bytes(pko.data) != d0:
+                ctx.violate('cmd:%s:packet-queued-by-an-earlier-command-changed' % cmd,
+                            dict(info, queued_was=d0.hex(), queued_is=bytes(pko.data).hex()), replay=rp)
+                del cf.link.queued[:]
+                break
         if first is None:
             first = dict(info, port=p_, channel=c_, data=data.hex())
     ctx.sample(first)
